@@ -63,8 +63,9 @@ def arith_clauses(pointee, sign, nexp, this='$this', result=None, null_clause=Tr
     res = result or '((uintptr_t)$ret.data)'
     cl.append(('inside_nowrap', '__CPROVER_ensures((%s && %s != 0) ==> V_IN_MI(V_WHICH(%s), %s))' % (NOWRAP, PO, PO, EX(PO))))
     cl.append(('exact_nowrap', '__CPROVER_ensures(%s ==> MI(%s) == %s)' % (NOWRAP, res, EX(PO))))
-    if not for_leaf:
-        cl.append(('exact_wrap', '__CPROVER_ensures(!%s ==> MI(%s) == %s)' % (NOWRAP, res, EX(PO))))
+    # outside the no-wrap domain the operation aborts (scaled_offset_does_not_wrap), so the exact result holds there too;
+    # the clause is part of the contract callers (compound assignment, ++/--) rely on
+    cl.append(('exact_wrap', '__CPROVER_ensures(!%s ==> MI(%s) == %s)' % (NOWRAP, res, EX(PO))))
     return cl, PO, EX(PO)
 
 
@@ -223,5 +224,5 @@ TRUSTED = ['guest ABI table of vsbx used as the spec stride (props/common.py GUE
 
 MANIFEST = {
     'level_text': 'Each instantiated operator body (pointer +, -, [], +=, -=, ++, -- pre/post) is proved against a contract taken from the statement: for all 2^64 base addresses, all values of the index type and every well-formed two-region address space, the call either aborts or returns exactly p +/- n*s (s = guest size of the pointee) with that address inside p\'s sandbox, does not abort when that address is inside, and aborts on a null base. Compound and ++/-- forms are verified against the proved contract of + / - (callers see the callee contract, not its body). Loop-free, full-width symbolic inputs: complete.',
-    'level_note': 'Assumes A_backend for vsbx and the dynamic_check leaf contract; instances: quick = pointee long with 6 index types plus 4 other strides, wrapped operands and all compound/inc/dec forms; thorough = 8 pointee types x 15 index types x operand wrappers. Struct pointees are covered through C08. Known findings: 64-bit index product wraps (KF-C05-wrap64).',
+    'level_note': 'Assumes A_backend for vsbx and the dynamic_check leaf contract; instances: quick = pointee long with 6 index types plus 4 other strides, wrapped operands and all compound/inc/dec forms; thorough = 8 pointee types x 15 index types x operand wrappers. Struct pointees are covered through C08. Fixed finding: the 64-bit index product wrapped (now refused by scaled_offset_does_not_wrap).',
 }
